@@ -43,7 +43,8 @@ Proof.
   unfold rep_step, console_step, zero_step, json_step.
   destruct (rp_kind r) eqn:K; destruct c; simpl; auto;
     try (unfold d_upd; destruct (d_get _ _); simpl; auto);
-    try (destruct (w_swapped w); simpl; auto).
+    try (destruct (w_swapped w); simpl; auto);
+    try (destruct (fail_report ti k kind); simpl; auto).
 Qed.
 Lemma step_kind st c : rp_kind (fst (step st c)) = rp_kind (fst st).
 Proof.
@@ -766,8 +767,10 @@ Definition shown (kind : rkind) (e : event) : list cline :=
       | _ => [] end
   | ESkipUpToDate k => match kind with RConsole => if negb (ta_private (ti k)) then [LUpToDate k] else [] | _ => [] end
   | ESkipIgnore k => match kind with RConsole => [LIgnore k] | _ => [] end
-  | EFailure k kd =>
-      match kind with RConsole | RExecutedOnly => [LFail k kd] | RErrorOnly => [LEFail k kd] | _ => [] end
+  | EFailure k kd =>      (* only a failure whose `report` attribute is True *)
+      if fail_report ti k kd
+      then match kind with RConsole | RExecutedOnly => [LFail k kd] | RErrorOnly => [LEFail k kd] | _ => [] end
+      else []
   | _ => [] end.
 Definition shown_call (kind : rkind) (c : call) : list cline :=
   match c with
@@ -812,7 +815,7 @@ Proof.
   destruct (rp_kind r) eqn:Ek; try congruence; destruct c; cbn [fst snd shown_call shown];
     rewrite ?stdout_mark, ?lines_sys_raw, ?stdout_sys_err, ?app_nil_r; auto;
     repeat match goal with |- context [if ?b then _ else _] => destruct b end;
-    rewrite ?stdout_real_out, ?result_lines_app, ?app_nil_r; auto.
+    cbn [fst snd]; rewrite ?stdout_real_out, ?result_lines_app, ?app_nil_r; auto.
   all: try (rewrite nores_lines by apply summary_nores; rewrite app_nil_r; reflexivity).
 Qed.
 
@@ -1650,3 +1653,239 @@ Proof.
   split; [exact A3|]. split; [exact A4|]. split; [exact A5|]. split; [exact A6|exact A7].
 Qed.
 
+
+(* ================================================================== Part D *)
+(* the `report` attribute of a failure (tattr.ta_report): read by the console-family reporters, never by
+   JsonReporter; never by the runners (the exit code is computed without any task attribute) *)
+
+(* two attribute tables that differ at most in the report flags *)
+Definition strip_report (a : tattr) : tattr :=
+  Build_tattr (ta_actions a) (ta_private a) (ta_verb a) (ta_out a) (ta_err a) (ta_td_out a) (ta_td_err a) (ta_td_fail a) true.
+Definition same_but_report (ti ti' : name -> tattr) : Prop := forall k, strip_report (ti k) = strip_report (ti' k).
+
+Section Flag.
+Variables ti ti' : name -> tattr.
+Hypothesis Hsame : same_but_report ti ti'.
+
+Lemma same_fields k :
+  ta_actions (ti k) = ta_actions (ti' k) /\ ta_private (ti k) = ta_private (ti' k) /\ ta_verb (ti k) = ta_verb (ti' k) /\
+  ta_out (ti k) = ta_out (ti' k) /\ ta_err (ti k) = ta_err (ti' k) /\ ta_td_out (ti k) = ta_td_out (ti' k) /\
+  ta_td_err (ti k) = ta_td_err (ti' k) /\ ta_td_fail (ti k) = ta_td_fail (ti' k).
+Proof. pose proof (Hsame k) as E. unfold strip_report in E. injection E. intros. repeat split; assumption. Qed.
+
+Lemma cb_same proc e : cb ti proc e = cb ti' proc e.
+Proof.
+  destruct e; try reflexivity; simpl; unfold td_calls;
+    destruct (same_fields k) as (E1 & E2 & E3 & E4 & E5 & E6 & E7 & E8); rewrite ?E3, ?E4, ?E5, ?E6, ?E7, ?E8; reflexivity.
+Qed.
+Lemma finish_calls_same proc rest : finish_calls ti proc rest = finish_calls ti' proc rest.
+Proof.
+  induction rest as [|e rest IH]; [reflexivity|].
+  assert (Hc : CCompleteRun :: flat_map (cb ti proc) (e :: rest) = CCompleteRun :: flat_map (cb ti' proc) (e :: rest)).
+  { f_equal. clear IH. induction (e :: rest) as [|x l IHl]; [reflexivity|]. simpl. rewrite IHl, cb_same. reflexivity. }
+  destruct e; try exact Hc.
+  change (finish_calls ti proc (ETeardown k :: rest)) with (cb ti proc (ETeardown k) ++ finish_calls ti proc rest).
+  change (finish_calls ti' proc (ETeardown k :: rest)) with (cb ti' proc (ETeardown k) ++ finish_calls ti' proc rest).
+  rewrite IH, cb_same. reflexivity.
+Qed.
+Lemma calls_of_same proc tr : calls_of ti proc tr = calls_of ti' proc tr.
+Proof.
+  induction tr as [|e tr IH]; [reflexivity|].
+  destruct e; try (change (calls_of ti proc (?e0 :: tr)) with (cb ti proc e0 ++ calls_of ti proc tr);
+                   change (calls_of ti' proc (?e0 :: tr)) with (cb ti' proc e0 ++ calls_of ti' proc tr);
+                   rewrite IH, cb_same; reflexivity).
+  apply finish_calls_same.
+Qed.
+
+Lemma json_step_same st c : rp_kind (fst st) = RJson -> step ti st c = step ti' st c.
+Proof.
+  destruct st as [r w]. cbn [fst]. intros K. rewrite !step_json by exact K.
+  destruct c; try reflexivity; simpl; unfold set_result;
+    destruct (same_fields k) as (E1 & E2 & E3 & E4 & E5 & E6 & E7 & E8); rewrite ?E4, ?E5; reflexivity.
+Qed.
+Lemma json_run_same cs : forall st, rp_kind (fst st) = RJson -> run ti st cs = run ti' st cs.
+Proof.
+  induction cs as [|c cs IH]; intros st K; [reflexivity|]. rewrite !run_cons.
+  rewrite <- json_step_same by exact K. apply IH. rewrite step_kind. exact K.
+Qed.
+
+(* `--reporter json`: everything the reporter does (its state, the real stdout / stderr, the document) is the
+   same whatever the report flags of the failures are *)
+Theorem json_ignores_report_flag proc fv tr : report ti proc RJson fv tr = report ti' proc RJson fv tr.
+Proof. unfold report. rewrite calls_of_same. apply json_run_same. reflexivity. Qed.
+End Flag.
+
+(* a task that failed is listed as `fail` with its error, for every attribute table (hence every report flag) *)
+Theorem json_failed_is_fail ti proc fv tr body tds mk k kd :
+  run_events tr body tds mk -> In (EFailure k kd) (body ++ EClose :: map ETeardown tds) ->
+  exists doc v, w_stdout (snd (report ti proc RJson fv tr)) = [ODoc doc] /\ In (k, v) (d_tasks doc) /\
+                tr_result v = Some JFail /\ tr_error v = Some kd /\
+                forall v', In (k, v') (d_tasks doc) -> v' = v.
+Proof.
+  intros Hr Hin. destruct (json_of_run ti proc fv tr body tds mk Hr) as (A & _ & _ & N1 & _ & F & _).
+  apply in_split in Hin. destruct Hin as (pre & post & E).
+  eexists. eexists. split; [exact A|]. split; [apply (F k pre (EFailure k kd) post E); simpl; apply N.eqb_refl|].
+  split; [reflexivity|]. split; [reflexivity|].
+  intros v' Hv'. apply (d_get_In ti) in Hv'; [|exact N1].
+  pose proof (F k pre (EFailure k kd) post E (N.eqb_refl k)) as Hv. apply (d_get_In ti) in Hv; [|exact N1]. congruence.
+Qed.
+
+(* ---- console family: nothing about a failure whose report flag is False ---- *)
+Section Silent.
+Variable ti : name -> tattr.
+Variable k : name.
+
+(* every line of ConsoleReporter / ErrorOnlyReporter that is about a failure of k: the failure entry, and the
+   three lines of the final summary (complete_run 100-108) *)
+Definition about_failure (l : cline) : bool :=
+  match l with LFail k' _ | LEFail k' _ | LSumFail k' _ | LSumErr k' | LSumOut k' => N.eqb k k' | _ => false end.
+Definition clines (l : list chunk) : list cline := flat_map (fun c => match c with Line l => [l] | _ => [] end) l.
+Lemma lines_of_chunks l : lines_of (map OChunk l) = clines l.
+Proof. induction l as [|c l IH]; [reflexivity|]. destruct c; simpl; rewrite IH; reflexivity. Qed.
+Lemma clines_app a b : clines (a ++ b) = clines a ++ clines b. Proof. apply flat_map_app. Qed.
+Lemma clines_raw l : clines (map Raw l) = [].
+Proof. induction l; simpl; auto. Qed.
+
+Lemma summary_silent r w : (forall kd, ~ In (k, kd) (rp_failures r)) ->
+  filter about_failure (clines (summary ti r w)) = [].
+Proof.
+  intros Hn. unfold summary. rewrite clines_app, filter_app.
+  assert (H2 : filter about_failure (clines (if is_nil (rp_rt r) then [] else
+                 Line LSep :: Line LAborted :: map (fun m => Line (LRuntime m)) (rp_rt r))) = []).
+  { destruct (is_nil (rp_rt r)); [reflexivity|]. simpl. induction (rp_rt r); simpl; auto. }
+  rewrite H2, app_nil_r. clear H2.
+  induction (rp_failures r) as [|[k' kd] l IH]; [reflexivity|].
+  simpl. rewrite clines_app, filter_app, IH, app_nil_r by (intros kd' H; apply (Hn kd'); right; exact H).
+  assert (Hne : N.eqb k k' = false).
+  { apply N.eqb_neq. intros ->. apply (Hn kd). left; reflexivity. }
+  destruct (negb (mem k' (w_executed w))); [reflexivity|].
+  rewrite !clines_app, !filter_app.
+  destruct ((ta_verb (ti k') <? 1) || (0 <? rp_fv r)), ((ta_verb (ti k') <? 2) || (rp_fv r =? 2));
+    simpl; rewrite ?clines_raw, ?Hne; reflexivity.
+Qed.
+
+Definition QI (st : rep * world) : Prop :=
+  (forall kd, ~ In (k, kd) (rp_failures (fst st))) /\ filter about_failure (lines_of (w_stdout (snd st))) = [].
+
+Lemma lines_of_sys_err p c w : lines_of (w_stdout (sys_write SErr p c w)) = lines_of (w_stdout w).
+Proof. rewrite stdout_sys_err. reflexivity. Qed.
+Lemma lines_of_sys_raw s p t w : lines_of (w_stdout (sys_write s p (Raw t) w)) = lines_of (w_stdout w).
+Proof.
+  unfold sys_write. destruct (w_swapped w); [destruct p; destruct s; reflexivity|].
+  destruct s; simpl; [rewrite lines_of_app; simpl; rewrite app_nil_r|]; reflexivity.
+Qed.
+
+Lemma silent_step st c : rp_kind (fst st) <> RJson ->
+  (forall kd, c = CFailure k kd -> fail_report ti k kd = false) -> QI st -> QI (step ti st c).
+Proof.
+  destruct st as [r w]. unfold QI. cbn [fst snd]. intros K Hc [Hf Hl].
+  unfold Report.step, rep_step, console_step, zero_step, out_write.
+  destruct (rp_kind r) eqn:Ek; try congruence; destruct c; cbn [fst snd];
+    rewrite ?stdout_mark, ?lines_of_sys_raw, ?lines_of_sys_err; auto.
+  all: repeat match goal with |- context [if ?b then _ else _] => destruct b eqn:? end; cbn [fst snd];
+    rewrite ?stdout_mark, ?stdout_real_out, ?lines_of_app, ?lines_of_chunks, ?filter_app, ?Hl; auto.
+  all: try (split; [exact Hf|]; simpl; rewrite ?summary_silent by exact Hf; reflexivity).
+  all: assert (Hne : N.eqb k k0 = false)
+    by (apply N.eqb_neq; intros <-; rewrite (Hc kind eq_refl) in *; discriminate).
+  all: split; [|simpl; rewrite Hne; reflexivity]; auto.
+  all: intros kd; simpl; rewrite in_app_iff; intros [H|[H|[]]]; [exact (Hf kd H)|].
+  all: injection H; intros _ <-; rewrite N.eqb_refl in Hne; discriminate.
+Qed.
+
+Lemma silent_run cs : forall st, rp_kind (fst st) <> RJson ->
+  (forall kd, In (CFailure k kd) cs -> fail_report ti k kd = false) -> QI st -> QI (run ti st cs).
+Proof.
+  induction cs as [|c cs IH]; intros st K Hc Hq; [exact Hq|]. rewrite run_cons. apply IH.
+  - rewrite step_kind. exact K.
+  - intros kd H. apply Hc. right; exact H.
+  - apply silent_step; auto. intros kd ->. apply Hc. left; reflexivity.
+Qed.
+
+(* a failure callback is made only for a failure event of the runner *)
+Lemma finish_calls_failure proc rest kd :
+  In (CFailure k kd) (finish_calls ti proc rest) -> In (EFailure k kd) rest.
+Proof.
+  assert (Hcb : forall e, In (CFailure k kd) (cb ti proc e) -> e = EFailure k kd).
+  { intros e H. apply cb_cases in H. destruct H as [(s & p & t & H)|H]; [discriminate|].
+    destruct e; try contradiction; try discriminate; try congruence. destruct H; discriminate. }
+  assert (Hfm : forall l, In (CFailure k kd) (flat_map (cb ti proc) l) -> In (EFailure k kd) l).
+  { intros l H. apply in_flat_map in H. destruct H as (e & Hin & H). apply Hcb in H. subst. exact Hin. }
+  induction rest as [|e rest IH].
+  - intros [H|[]]; discriminate.
+  - destruct e; try (change (finish_calls ti proc (?e0 :: rest)) with (CCompleteRun :: flat_map (cb ti proc) (e0 :: rest));
+                     intros [H|H]; [discriminate|apply Hfm; exact H]).
+    change (finish_calls ti proc (ETeardown k0 :: rest)) with (cb ti proc (ETeardown k0) ++ finish_calls ti proc rest).
+    rewrite in_app_iff. intros [H|H]; [apply Hcb in H; discriminate|right; apply IH; exact H].
+Qed.
+Lemma calls_of_failure proc tr kd : In (CFailure k kd) (calls_of ti proc tr) -> In (EFailure k kd) tr.
+Proof.
+  assert (Hcb : forall e, In (CFailure k kd) (cb ti proc e) -> e = EFailure k kd).
+  { intros e H. apply cb_cases in H. destruct H as [(s & p & t & H)|H]; [discriminate|].
+    destruct e; try contradiction; try discriminate; try congruence. destruct H; discriminate. }
+  induction tr as [|e tr IH]; [intros []|].
+  destruct e; try (change (calls_of ti proc (?e0 :: tr)) with (cb ti proc e0 ++ calls_of ti proc tr);
+                   rewrite in_app_iff; intros [H|H]; [left; apply Hcb; exact H|right; apply IH; exact H]).
+  change (calls_of ti proc (EClose :: tr)) with (finish_calls ti proc tr). intros H. right. eapply finish_calls_failure; eauto.
+Qed.
+
+(* console / executed-only / zero / error-only, EVERY event list: when every failure reported for task k
+   carries report=False, no line about a failure of k reaches the real stdout -- neither the failure entry
+   nor an entry of the final summary *)
+Theorem console_unreported_silent proc kind fv tr : kind <> RJson ->
+  (forall kd, In (EFailure k kd) tr -> fail_report ti k kd = false) ->
+  filter about_failure (lines_of (w_stdout (snd (report ti proc kind fv tr)))) = [].
+Proof.
+  intros K Hf. unfold report.
+  apply (silent_run (CInitialize :: calls_of ti proc tr) (init kind fv)); [exact K| |split; [intros kd []|reflexivity]].
+  intros kd [H|H]; [discriminate|]. apply Hf. eapply calls_of_failure; eauto.
+Qed.
+End Silent.
+
+(* in the terms of the task attribute: the task's own failures (TaskFailed / TaskError returned by its actions) *)
+Theorem console_unreported_silent_attr ti proc kind fv tr k : kind <> RJson ->
+  ta_report (ti k) = false -> (forall kd, In (EFailure k kd) tr -> kd = 0 \/ kd = 1) ->
+  filter (about_failure k) (lines_of (w_stdout (snd (report ti proc kind fv tr)))) = [].
+Proof.
+  intros K Hr Hk. apply console_unreported_silent; [exact K|].
+  intros kd Hin. unfold fail_report. rewrite Hr. destruct (Hk kd Hin) as [-> | ->]; reflexivity.
+Qed.
+
+(* the exit code is computed by the runner alone: no task attribute, no reporter class enters it *)
+Theorem exit_code_ignores_reporter_serial tasks wake_rank calc_rank continue_ always fuel sel ti kind fv :
+  snd (report_serial tasks wake_rank calc_rank continue_ always fuel sel ti kind fv) =
+  snd (run_serial tasks wake_rank calc_rank continue_ always fuel sel).
+Proof. reflexivity. Qed.
+Theorem exit_code_ignores_reporter_parallel tasks wake_rank calc_rank continue_ always proc fuel nprocs sched sel ti kind fv :
+  snd (report_parallel tasks wake_rank calc_rank continue_ always proc fuel nprocs sched sel ti kind fv) =
+  snd (run_parallel tasks wake_rank calc_rank continue_ always proc fuel nprocs sched sel).
+Proof. reflexivity. Qed.
+
+(* composed with the runner models: a task the runner reported as failed is listed once, as `fail`, with its error
+   -- for EVERY attribute table, so whatever the report flag of the failure says *)
+Theorem json_failed_serial :
+  forall tasks wake_rank calc_rank continue_ always fuel selection ti fv k kd,
+  let run := run_serial tasks wake_rank calc_rank continue_ always fuel selection in
+  snd run <> 99 -> In (EFailure k kd) (fst run) ->
+  exists doc v,
+    w_stdout (snd (report ti false RJson fv (fst run))) = [ODoc doc] /\ NoDup (map fst (d_tasks doc)) /\
+    In (k, v) (d_tasks doc) /\ tr_result v = Some JFail /\ tr_started v = mem k (execs (fst run)) /\ tr_error v = Some kd.
+Proof.
+  intros tasks wake_rank calc_rank continue_ always fuel selection ti fv k kd run Hf Hin.
+  destruct (json_serial tasks wake_rank calc_rank continue_ always fuel selection ti fv Hf) as (doc & A1 & _ & _ & A4 & A5 & _).
+  destruct (A5 k (EFailure k kd) Hin (N.eqb_refl k)) as (v & B1 & B2 & B3 & B4).
+  exists doc, v. auto 10.
+Qed.
+Theorem json_failed_parallel :
+  forall tasks wake_rank calc_rank continue_ always proc fuel nprocs sched selection ti fv k kd,
+  let run := run_parallel tasks wake_rank calc_rank continue_ always proc fuel nprocs sched selection in
+  let tr := events_of (fst run) in
+  In (EFailure k kd) tr ->
+  exists doc v,
+    w_stdout (snd (report ti proc RJson fv tr)) = [ODoc doc] /\ NoDup (map fst (d_tasks doc)) /\
+    In (k, v) (d_tasks doc) /\ tr_result v = Some JFail /\ tr_started v = mem k (execs tr) /\ tr_error v = Some kd.
+Proof.
+  intros tasks wake_rank calc_rank continue_ always proc fuel nprocs sched selection ti fv k kd run tr Hin.
+  destruct (json_parallel tasks wake_rank calc_rank continue_ always proc fuel nprocs sched selection ti fv) as (doc & A1 & _ & _ & A4 & A5 & _).
+  destruct (A5 k (EFailure k kd) Hin (N.eqb_refl k)) as (v & B1 & B2 & B3 & B4).
+  exists doc, v. auto 10.
+Qed.
